@@ -53,6 +53,13 @@ def r_name(n):
 
 # ------------------------------------------------------------------------------------------- objects
 
+BIG_ID = 10 ** 6      # model id of the empty scratchpad payload (spec "data": -1)
+
+
+def _did(d):
+    return d if d >= 0 else BIG_ID
+
+
 def r_pad(p):
     s = p["sig"]
     if s == "none":
@@ -60,9 +67,9 @@ def r_pad(p):
     elif isinstance(s, str):
         sig = "PSJunk"
     else:
-        sig = "(PSBy %s %s %s)" % (cN(s["by"]), cN(s["ctr"]), cN(s["data"]))
+        sig = "(PSBy %s %s %s)" % (cN(s["by"]), cN(s["ctr"]), cN(_did(s["data"])))
     return "{| p_owner := %s; p_ctr := %s; p_data := %s; p_enc := %s; p_sig := %s |}" % (
-        cN(p["owner"]), cN(p["ctr"]), cN(p["data"]), cN(p.get("enc", 0)), sig)
+        cN(p["owner"]), cN(p["ctr"]), cN(_did(p["data"])), cN(p.get("enc", 0)), sig)
 
 
 def r_tx(t):
@@ -177,6 +184,9 @@ def r_body(b):
     t = b["t"]
     if t == "chunk":
         return "(BChunk %s)" % r_pre(pre_of_cid(b["c"]))
+    if t == "rawchunk":
+        # hand-built msgpack: only the bare byte string is what Chunk's decoder accepts (and it re-hashes it)
+        return "(BChunk %s)" % r_pre(pre_of_cid(b["c"])) if b.get("shape", "bare") == "bare" else "BGarbage"
     if t == "pad":
         return "(BPad %s)" % r_pad(b)
     if t == "tx":
@@ -471,6 +481,23 @@ def kind_change_violations(case, out):
             if r.get("store_at_start") is not None and r.get("store_after") is not None:
                 steps.append(("delivery %d" % i, r["store_at_start"], r["store_after"]))
     steps.append(("whole case", out["store_before"], out["store"]))
+    # a chunk under the hash of its bytes: the harness re-hashes (SHA3-256) the bytes of every stored chunk
+    # record with its own msgpack reader, independent of Chunk's serde impl
+    seen = set()
+    dumps_ = [("final store", out["store"])]
+    for i, r in enumerate(out["results"]):
+        dumps_.append(("write of delivery %d" % i, [p for p in r["puts"] if not p.get("refused_by_driver")]))
+        if r.get("store_after") is not None:
+            dumps_.append(("store after delivery %d" % i, r["store_after"]))
+    for where, dmp in dumps_:
+        for s_ in dmp:
+            val = s_["val"]
+            if val.get("t") == "chunk" and "sha3" in val and "key_hex" in s_ and val["sha3"] != s_["key_hex"]:
+                sig = (s_["key_hex"], val["sha3"])
+                if sig not in seen:
+                    seen.add(sig)
+                    v.append(("chunk-not-under-hash-of-bytes", "%s: a chunk is stored under key %s but its bytes hash to %s (%s)"
+                              % (where, s_["key_hex"][:16], val["sha3"][:16], dumps(val.get("c"))[:80])))
     for where, b, a in steps:
         before, after = dump_map(b), dump_map(a)
         for k, sb in before.items():
@@ -587,3 +614,63 @@ def back_to_back_cases():
     return cs
 
 
+
+
+# ------------------------------------------------------------------------------------------- hand-built chunk bodies, pad boundaries
+
+RAW_SHAPES = ("arr-ints", "arr-bin", "arr-hex", "map-av", "map-va", "bare")
+
+
+def raw_chunk_cases():
+    """Chunk / ChunkWithPayment records whose msgpack body is built by hand: the claimed address A travels next to
+    bytes V with hash(V) != A (2-array with the address as 32 ints / bin / hex string, map in both field orders) and
+    the honest bare-bytes form, each presented under A, under hash(V) and under an unrelated key, on the replication
+    path and as a paid client upload (payment valid for the presented key), against an empty store and a store
+    that already holds the honest chunk A"""
+    cs = []
+    A = {"chunk": {"d": 41}}
+    V = {"d": 42}
+    for shape in RAW_SHAPES:
+        for kname, key in (("claimed", A), ("hash", {"chunk": V}), ("other", {"raw": 5})):
+            for store in ([], [held({"t": "chunk", "c": {"d": 41}})]):
+                body = {"t": "rawchunk", "shape": shape, "addr": A, "c": V}
+                d1 = {"path": "repl", "hdr": 1, "body": copy.deepcopy(body), "key": copy.deepcopy(key), "proof": None, "chain": {"mode": "ok"}}
+                d2 = {"path": "client", "hdr": 0, "body": copy.deepcopy(body), "key": copy.deepcopy(key),
+                      "proof": good_proof(key), "chain": {"mode": "ok"}}
+                d3 = {"path": "client", "hdr": 1, "body": copy.deepcopy(body), "key": copy.deepcopy(key), "proof": None, "chain": {"mode": "ok"}}
+                for d in (d1, d2, d3):
+                    cs.append(case("raw-chunk", [d], store=copy.deepcopy(store)))
+    return cs
+
+
+def raw_chunk_storeput_cases():
+    puts = []
+    A = {"chunk": {"d": 41}}
+    for shape in RAW_SHAPES:
+        for key in (A, {"chunk": {"d": 42}}, {"raw": 5}):
+            for hdr in (1, 0):
+                puts.append({"key": key, "hdr": hdr, "body": {"t": "rawchunk", "shape": shape, "addr": A, "c": {"d": 42}},
+                             "proof": good_proof(key) if hdr == 0 else None})
+    return [{"mode": "storeput", "kind": "storeput-raw-chunk", "max": 4096, "prior": [], "puts": puts[i:i + 12]}
+            for i in range(0, len(puts), 12)]
+
+
+U64_MAX = 2 ** 64 - 1
+
+
+def pad_boundary_cases():
+    """signature {none, junk, other key, valid} x counter {0, 1, u64::MAX} x data {empty, non-empty} x data_encoding
+    {0, other} on every entry point, from an empty store and from a store holding a lower / higher version"""
+    cs = []
+    for sig in ("none", "junk", "other", "ok"):
+        for ctr in (0, 1, U64_MAX):
+            for data in (-1, 3):
+                for enc in (0, 9):
+                    if sig == "other":
+                        b = pad(1, ctr, data=data, signer=2, sig="ok", enc=enc)
+                    else:
+                        b = pad(1, ctr, data=data, sig=sig, enc=enc)
+                    for store in ([], [held(pad(1, 0, data=7))], [held(pad(1, 5))]):
+                        for d in (delivery("repl", b), delivery("client", b, paid=True), delivery("client", b)):
+                            cs.append(case("pad-boundary", [copy.deepcopy(d)], store=copy.deepcopy(store)))
+    return cs
